@@ -107,6 +107,10 @@ class Closure(object):
         self.name = name or getattr(node, 'name', '<lambda>')
         self.is_generator = any(isinstance(n, (ast.Yield, ast.YieldFrom)) for n in _walk_own(node))
         self.defaults = None
+        # function attributes a decorator may copy (functools.wraps by hand); they do not change how the function is analysed
+        self.__name__ = self.name
+        self.__doc__ = ast.get_docstring(node) if isinstance(node, ast.FunctionDef) else None
+        self.__wrapped__ = None
 
     @property
     def qualname(self):
@@ -258,6 +262,8 @@ class Interp(object):
         self.cur = None                      # (module, node) being evaluated
         self.call_trace = None               # list to record calls when enabled
         self.on_return = None                # hook(closure, value): called when an analysed function returns
+        self.loop_log = None                 # list: one record per finished `for` loop (how it ended, iterations) when enabled
+        self.loop_stack = []                 # records of the `for` loops being executed (innermost last)
         self.call_depth = 0
         self.stack = []                      # qualnames of the analysed functions being interpreted
         self.builtins = self._make_builtins()
@@ -654,16 +660,29 @@ class Interp(object):
         if T is ast.For:
             it = self.iterate(self.eval(st.iter, fr))
             broke = False
-            for item in it:
-                self.tick(st, fr)
-                self.assign(st.target, item, fr)
-                try:
-                    yield from self.exec_block(st.body, fr)
-                except _Break:
-                    broke = True
-                    break
-                except _Continue:
-                    continue
+            rec = None
+            if self.loop_log is not None:
+                rec = {'node': st, 'where': fr.module.where(st), 'iterations': 0, 'exit': 'left early (return / exception)'}
+                self.loop_stack.append(rec)
+            try:
+                for item in it:
+                    self.tick(st, fr)
+                    if rec is not None:
+                        rec['iterations'] += 1
+                    self.assign(st.target, item, fr)
+                    try:
+                        yield from self.exec_block(st.body, fr)
+                    except _Break:
+                        broke = True
+                        break
+                    except _Continue:
+                        continue
+                if rec is not None:
+                    rec['exit'] = 'break' if broke else 'exhausted'
+            finally:
+                if rec is not None:
+                    self.loop_stack.pop()
+                    self.loop_log.append(rec)
             if not broke and st.orelse:
                 yield from self.exec_block(st.orelse, fr)
             return
